@@ -6,6 +6,14 @@ props = [json.loads(l) for l in open(os.path.join(V, "properties.jsonl"))]
 NOTE = ("Trusted: Coq 8.16.1 kernel + vm_compute; no axioms (Print Assumptions: closed under the global context for every theorem in the property file); "
         "translator gstrans; the Go harness, its generators and canonicalisers; ./check. ")
 C = {
+ "C02": ("proof", "5.2", "rocq-models",
+   "Kernel-checked on the fragment of Sem/Schema.v (strings, integers, booleans, arrays, maps, objects with required/optional properties at any depth; all documents with distinct keys): decoding into the generated Go type and calling Validate succeeds exactly when the reference semantics accepts the document in which optional zero-valued non-pointer scalars and optional nulls are treated as absent (C02_agrees), and that erasure removes nothing else (C02_erase_only_documented). Both sides of the theorem are tied to the code on every run: the model of the generated code against compiled generated models, the reference semantics against go-openapi/validate, on generated definitions x documents deviating from validity in one place. The harness additionally compares, outside the fragment (formats, patterns, allOf, property counts, unsigned formats), the compiled models with the reference validator directly.",
+   "proof on fragment (Coq 8.16) + compiled-model differential oracle against go-openapi/validate",
+   "Modelled: nullable rules of types.go, validation templates, encoding/json decoding for the fragment. Oracles: go-openapi/validate, Go compiler, encoding/json."),
+ "C05": ("proof", "5.5", "rocq-models",
+   "Kernel-checked on the same fragment for rt = json.Marshal(json.Unmarshal(.)) of the generated type: a declared property present with a non-null value is preserved at its path except an optional zero-valued non-pointer scalar or optional empty map; required properties are never omitted; nothing undeclared is added; scalars, array elements and map entries are carried over one by one (PARTIAL: per nesting level; allOf, additionalProperties next to properties and polymorphism are exercised only). rt is compared with the compiled generated models on every run; the oracle checks loss, additions, idempotence and decodability of valid documents, including allOf members and discriminated subtypes with x-class reached through the base type.",
+   "proof on fragment (Coq 8.16) + compiled-model round-trip oracle",
+   "Modelled: struct tags / omitempty rules for the fragment. Exercised only: custom (un)marshallers of allOf, additionalProperties, polymorphic types."),
  "C07": ("proof", "5.7", "rocq-order",
    "Kernel-checked for all lists and permutations: collect-then-sort, first-match over a table whose matching entries agree, map building from distinct keys and set membership do not depend on iteration order; every map-range site of generator/, diff and codescan (typed inventory regenerated with go/packages on every run) is in a proven pattern or in a reviewed table (C07_sites), and the media-type table (regenerated) is unambiguous on a catalogue of media types. PARTIAL: pattern recognition is syntactic and trusted; byte-identity of whole outputs and data-race freedom are exercised: every command repeated in fresh processes on a wide input, K concurrent library generations under the race detector.",
    "proof of loop patterns (Coq 8.16) + regenerated typed site inventory + N-run / -race oracle",
@@ -48,6 +56,7 @@ ENG = {
  "rocq-text": ("/verif/coq (Tools/Escape*.v, Gen/GenTextSites.v) + /verif/harness/cmd/textcheck", "Coq 8.16 model of the text helpers and Go lexical contexts; site-inventory translator; rendering oracles"),
  "rocq-yaml": ("/verif/coq (Tools/Decimal.v) + /verif/harness/cmd/yamlcheck", "Coq 8.16 integer-text theorems; CLI differential harness over scalar classes"),
  "rocq-order": ("/verif/coq (Tools/Order*.v, Gen/GenRangeSites.v, Gen/GenMediaTable.v) + /verif/harness/cmd/{rangesites,detcheck}", "Coq 8.16 permutation-invariance lemmas; go/types site inventory; N-run and -race harness"),
+ "rocq-models": ("/verif/coq (Sem/Schema*.v) + /verif/harness/cmd/modelcheck", "Coq 8.16 semantics of the schema fragment and of generated models; compiled-model harness"),
  "rocq-fs": ("/verif/coq (Tools/Regen*.v) + /verif/harness/cmd/regencheck", "Coq 8.16 file-system history machine; real-history harness"),
 }
 extra = os.path.join(V, "tools", "manifest_extra.json")
